@@ -116,6 +116,9 @@ def universes_c17():
         E("xz14", "B", 1, 15, [["expiration", "vz14"]], exp=["n", 14]),
         E("xi14", "B", 1, 16, [["expiration", "vi14"]], exp=["n", 14]),
         E("xneg", "B", 1, 17, [["expiration", "vneg"]], exp=["bad"]),
+        # malformed values that begin with digits (a date, an exponent, a fraction): not timestamps - never collected
+        E("xiso", "B", 1, 18, [["expiration", "viso"]], exp=["bad"]), E("xexp", "B", 1, 19, [["expiration", "vexp"]], exp=["bad"]),
+        E("xfrac", "B", 1, 20, [["expiration", "vfrac"]], exp=["bad"]),
     ]
     # few events, longer behaviours: an event that was collected and is then submitted again must be collected again
     us["regc"] = [E("n1", "A", 1, 10), E("x14", "A", 1, 11, [["expiration", "t14"]]), E("x16", "A", 1, 13, [["expiration", "t16"]])]
@@ -335,7 +338,7 @@ PALETTE_OF = {}
 SYMTABS = {"ack": {"nothex": "this-is-not-an-event-id", "big": "x" * 600, "huge": 2 ** 70}, "service": {"quo": "a'\"\\b\u00e4\n", "pkB": C.pubkey("B"), "bob": "bob@example.com"}, "dunicode": {"uml": "\u00e4", "umlx": "\u00e4x"},
            "delnone": {"acoord": "30000:%s:x" % C.pubkey("A")},
            "verbatim": {"sp": " a ", "up": "ABCDEF", "num": "007", "nfc": "\u00e9", "nfd": "e\u0301"},
-           "gcdigits": {"v999": "999", "vbig": "17000000150", "vz14": "01700000014", "vi14": 1700000014, "vneg": "0abc"}}
+           "gcdigits": {"v999": "999", "vbig": "17000000150", "vz14": "01700000014", "vi14": 1700000014, "vneg": "0abc", "viso": "2030-01-01T00:00:00Z", "vexp": "1e12", "vfrac": "1700000000.5"}}
 
 UNIVERSES = {"C04": universes_c04, "C03": universes_c03, "C06": universes_c06, "C08": universes_c08, "C09": universes_c09, "C17": universes_c17}
 GC_TIMES = {"C04": (), "C03": (), "C17": (15, 16), "C06": (), "C08": (), "C09": ()}
@@ -406,14 +409,20 @@ def _pre_store(tr, k):
 
 
 def _m_sql_expiration_text(a):
-    """open finding C17/sql-expiration-compared-as-string"""
+    """open finding C17/sql-expiration-compared-as-string, recognised exactly: the statement compares tags.value < '<now>' as
+    text.  The violation is that finding iff every event the pass wrongly kept or wrongly removed was treated just as the text
+    comparison of its expiration values treats it (removed iff some value sorts before the clock's decimal string)."""
     if a["backend"] != "sql" or a["formula"] != "C17_GcExact" or not a["offenders"]:
         return False
     uni = a["uni"]
-    clock_digits = len(str(C.T0 + a["line"]["T"]))
+    now = str(C.T0 + a["line"]["T"])
+    post = set(a["line"]["post"])
     for sym in a["offenders"]:
         vals = [t[1] for t in uni.conc[sym]["tags"] if t and t[0] == "expiration" and len(t) > 1]
-        if not vals or not all(isinstance(v, str) and not (v.isdigit() and len(v) == clock_digits) for v in vals):
+        if not vals or uni.abs[sym]["kind"] in range(20000, 30000):
+            return False
+        as_found_removed = any(str(v) < now for v in vals)
+        if (sym not in post) != as_found_removed:
             return False
     return True
 
